@@ -69,6 +69,11 @@ def scenarios(tier):
                   ("AT", "ExcludeRegion", "enable"), ("EV", "PRINT_DONE"), ("NEWPRINT",)],
                  max_states=150000 if q else 3000000,
                  note="the same @-commands in consecutive prints (every print starts enabled)"),
+        Scenario("c14-regions-later", World, dict(base, regions=[], maxregions=1, shrink=True),
+                 [("TRAVEL", "O2"), ("TRAVEL", "I1"), ("XONLY", "I1"), ("ADD", "R", "r"), ("API", "del", "r", None, False),
+                  ("AT", "ExcludeRegion", "disable"), ("AT", "ExcludeRegion", "enable"), ("NEWPRINT",)],
+                 max_states=150000 if q else 3000000,
+                 note="the print starts with no region defined; @-commands arrive before the first region is added"),
         Scenario("c14-relative", World, dict(base, regions=["R"], guard=no_relative_disable),
                  REL_MENU, max_depth=10 if q else 14, max_states=3000000,
                  note="relative moves after re-enabling; disable is not issued inside an episode while in G91 (D17)"),
